@@ -18,11 +18,28 @@ abbrev Bytes := List UInt8
 
 /-! ### slice primitives -/
 
+/-- `len(b) < k`.  Specified through `List.length`; executed (`@[csimp]` below) by walking at most `k` cells, so that the
+    model driver stays linear on megabyte inputs. -/
+def lenLt (b : Bytes) (k : Nat) : Bool := decide (b.length < k)
+
+def lenLtFast : Bytes → Nat → Bool
+  | _, 0 => false
+  | [], _ + 1 => true
+  | _ :: t, k + 1 => lenLtFast t k
+
+theorem lenLtFast_eq (b : Bytes) (k : Nat) : lenLtFast b k = decide (b.length < k) := by
+  induction b generalizing k with
+  | nil => cases k <;> simp [lenLtFast]
+  | cons x t ih => cases k <;> simp [lenLtFast, ih]
+
+@[csimp] theorem lenLt_eq_fast : @lenLt = @lenLtFast := by
+  funext b k; simp [lenLt, lenLtFast_eq]
+
 /-- `b[n:]` -/
-def slFrom (b : Bytes) (n : Nat) : DRes Bytes := if n ≤ b.length then .ok (b.drop n) else .panic
+def slFrom (b : Bytes) (n : Nat) : DRes Bytes := if lenLt b n then .panic else .ok (b.drop n)
 
 /-- `b[0:n]` -/
-def slTo (b : Bytes) (n : Nat) : DRes Bytes := if n ≤ b.length then .ok (b.take n) else .panic
+def slTo (b : Bytes) (n : Nat) : DRes Bytes := if lenLt b n then .panic else .ok (b.take n)
 
 /-- `big.Uint16(b)` -/
 def be16 (b : Bytes) : DRes Nat :=
@@ -52,16 +69,16 @@ def readMapHeader (b : Bytes) : DRes (Nat × Bytes) :=
     if lead &&& 0xf0 = 0x80 then                           -- fixmap
       DRes.bind (slFrom b 1) fun o => .ok ((lead &&& 0x0f).toNat, o)
     else if lead = 0xde then                               -- map16
-      if b.length < 3 then .err else
+      if lenLt b 3 then .err else
       DRes.bind (slFrom b 1) fun t => DRes.bind (be16 t) fun n => DRes.bind (slFrom b 3) fun o => .ok (n, o)
     else if lead = 0xdf then                               -- map32
-      if b.length < 5 then .err else
+      if lenLt b 5 then .err else
       DRes.bind (slFrom b 1) fun t => DRes.bind (be32 t) fun n => DRes.bind (slFrom b 5) fun o => .ok (n, o)
     else .err                                              -- badPrefix
 
 /-- the tail of `ReadStringZC` / `readBytesBytes`: `if len(b) < read → ErrShortBytes; v = b[0:read]; o = b[read:]` -/
 def takeExact (b : Bytes) (read : Nat) : DRes (Bytes × Bytes) :=
-  if b.length < read then .err else
+  if lenLt b read then .err else
   DRes.bind (slTo b read) fun v => DRes.bind (slFrom b read) fun o => .ok (v, o)
 
 /-- `ReadStringZC`: value and remaining bytes; a non-str lead byte is a TypeError -/
@@ -72,15 +89,15 @@ def readString (b : Bytes) : DRes (Bytes × Bytes) :=
     if lead &&& 0xe0 = 0xa0 then                           -- fixstr
       DRes.bind (slFrom b 1) fun t => takeExact t (lead &&& 0x1f).toNat
     else if lead = 0xd9 then                               -- str8
-      if b.length < 2 then .err else
+      if lenLt b 2 then .err else
       DRes.bind (slFrom b 1) fun t => match t with
         | n :: _ => DRes.bind (slFrom b 2) fun t2 => takeExact t2 n.toNat
         | [] => .panic
     else if lead = 0xda then                               -- str16
-      if b.length < 3 then .err else
+      if lenLt b 3 then .err else
       DRes.bind (slFrom b 1) fun t => DRes.bind (be16 t) fun n => DRes.bind (slFrom b 3) fun t2 => takeExact t2 n
     else if lead = 0xdb then                               -- str32
-      if b.length < 5 then .err else
+      if lenLt b 5 then .err else
       DRes.bind (slFrom b 1) fun t => DRes.bind (be32 t) fun n => DRes.bind (slFrom b 5) fun t2 => takeExact t2 n
     else .err
 
@@ -90,15 +107,15 @@ def readBin (b : Bytes) : DRes (Bytes × Bytes) :=
   | [] => .err
   | lead :: _ =>
     if lead = 0xc4 then
-      if b.length < 2 then .err else
+      if lenLt b 2 then .err else
       DRes.bind (slFrom b 1) fun t => match t with
         | n :: _ => DRes.bind (slFrom b 2) fun t2 => takeExact t2 n.toNat
         | [] => .panic
     else if lead = 0xc5 then
-      if b.length < 3 then .err else
+      if lenLt b 3 then .err else
       DRes.bind (slFrom b 1) fun t => DRes.bind (be16 t) fun n => DRes.bind (slFrom b 3) fun t2 => takeExact t2 n
     else if lead = 0xc6 then
-      if b.length < 5 then .err else
+      if lenLt b 5 then .err else
       DRes.bind (slFrom b 1) fun t => DRes.bind (be32 t) fun n => DRes.bind (slFrom b 5) fun t2 => takeExact t2 n
     else .err
 
@@ -124,12 +141,12 @@ def getSize (b : Bytes) : DRes (Nat × Nat) :=
   | lead :: _ =>
     let fixed (size : Nat) : DRes (Nat × Nat) := .ok (size, 0)
     let extra (size : Nat) (n : DRes Nat) : DRes (Nat × Nat) :=
-      if b.length < size then .err else DRes.bind n fun k => .ok (size + k, 0)
+      if lenLt b size then .err else DRes.bind n fun k => .ok (size + k, 0)
     let len8 : DRes Nat := DRes.bind (slFrom b 1) fun t => match t with | n :: _ => .ok n.toNat | [] => .panic
     let len16 : DRes Nat := DRes.bind (slFrom b 1) be16
     let len32 : DRes Nat := DRes.bind (slFrom b 1) be32
     let objs (size : Nat) (n : DRes Nat) (mul : Nat) : DRes (Nat × Nat) :=
-      if b.length < size then .err else DRes.bind n fun k => .ok (size, mul * k)
+      if lenLt b size then .err else DRes.bind n fun k => .ok (size, mul * k)
     if lead = 0xc0 ∨ lead = 0xc2 ∨ lead = 0xc3 then fixed 1
     else if lead = 0xc4 then extra 2 len8
     else if lead = 0xc5 then extra 3 len16
@@ -175,7 +192,7 @@ def skipObjs : Nat → Nat → Bytes → DRes Bytes
   | fuel + 1, n + 1, b =>
     match getSize b with
     | .ok (sz, asz) =>
-      if b.length < sz then .err else
+      if lenLt b sz then .err else
       DRes.bind (slFrom b sz) fun b' => skipObjs fuel (n + asz) b'
     | .err => .err
     | .panic => .panic
